@@ -17,7 +17,8 @@ def record_case(cid, T, mods, seed, shuffle=True, origin='tlc'):
     # provenance: a quarter of the trees come out of the tool's own export reader (which leaves its own
     # bookkeeping in the node data) and half of those are then edited by delete_terminal, which renumbers
     # the tokens; the answers are judged against the graph as it is after that
-    via_reader = seed % 4 == 1
+    onenode = len(T['nodes']) == 1      # (root = token: no export rendering of it)
+    via_reader = seed % 4 == 1 and not onenode
     if via_reader:
         import copy
         import os
@@ -172,7 +173,7 @@ def record_case(cid, T, mods, seed, shuffle=True, origin='tlc'):
                     'nsent': int(ms.group(1)) if ms else -1}
         finally:
             shutil.rmtree(tmp, ignore_errors=True)
-    if seed % 40 == 0 and not via_reader:
+    if seed % 40 == 0 and not via_reader and not onenode:
         events.append(dict(analysis_cli(), a='analysis', res='ok', exc='~'))
 
     def numbering():
